@@ -28,7 +28,8 @@ a numpy shape error); every input vector has its entity's size.
 Domain note.  The formula language modelled here (`DExpr`) has the sum over members, the
 projection onto persons and the role operations that are functions of the SET of role holders of
 a group (role-filtered sum, value of the unique-role member = `value_from_person` / the role
-projector, number of role holders, any).  It deliberately has no n-th-member / first-person / rank
+projector, number of role holders, any, and the reductions max / min / all with or without role
+filter, made total on integers: 0, 0 and 1 for a household without holder).  It deliberately has no n-th-member / first-person / rank
 read: their result is *defined* by storage order ("this position is arbitrary"), so the
 permutation clause of the property is false of them by definition.  For the language as it is the
 permutation theorems hold without restriction, like the merge theorems.  Inputs are whole vectors per (variable, period): the part
@@ -76,9 +77,9 @@ theorem C11_expr_equivariant (d : Decl) (armed sel gsel : List Nat) (hwf : WF d)
 
 /-- the group operations in isolation: the household sums of the part are the merged household
     sums of the kept households, the projection onto the part's persons is the merged projection
-    at the kept persons, and every role operation (codes 10–49: role-filtered sum, value of the
-    unique-role member, number of role holders, any) of the part is the merged one at the kept
-    households -/
+    at the kept persons, and every role operation (codes 10–79: role-filtered sum, value of the
+    unique-role member, number of role holders, any, max, min, all — with or without role filter)
+    of the part is the merged one at the kept households -/
 theorem C11_group_ops_equivariant (d : Decl) (sel gsel : List Nat) (hwf : WF d) (hcl : Closed d sel gsel) :
     (∀ x : Val, x.length = d.nP →
         RuleSys.f1 (restrict d sel gsel) 1 (reindex sel x) = reindex gsel (RuleSys.f1 d 1 x)) ∧
@@ -107,6 +108,45 @@ example : RuleSys.f1 c11D 22 [10, 20, 30, 40, 50] = [50, 10, 40] ∧
     RuleSys.f1 (restrict c11D [1, 3, 4] [0, 2]) 22 (reindex [1, 3, 4] [10, 20, 30, 40, 50]) = [50, 40] ∧
     RuleSys.f1 (permute c11D [4, 2, 0, 3, 1] [2, 0, 1]) 22 (reindex [4, 2, 0, 3, 1] [10, 20, 30, 40, 50]) = [40, 50, 10] ∧
     RuleSys.f1 c11D 31 [0, 0, 0, 0, 0] = [0, 1, 0] ∧ isRoleOp 22 = true := by decide
+
+/-- The reductions are functions of the multiset of the holders' values, not of the order in which
+    persons are stored: `max` is attained and an upper bound, `min` attained and a lower bound,
+    `all` says that no holder's value is 0; a household without holder gives 0, 0 and 1. -/
+theorem C11_reductions_def (d : Decl) (r : Nat) (x : Val) (g : Nat) :
+    (holderVals d r x g ≠ [] →
+      (listMax (holderVals d r x g) ∈ holderVals d r x g ∧ ∀ y ∈ holderVals d r x g, y ≤ listMax (holderVals d r x g)) ∧
+      (listMin (holderVals d r x g) ∈ holderVals d r x g ∧ ∀ y ∈ holderVals d r x g, listMin (holderVals d r x g) ≤ y)) ∧
+    (listAll (holderVals d r x g) = 1 ↔ ∀ y ∈ holderVals d r x g, y ≠ 0) ∧
+    (holderVals d r x g = [] →
+      listMax (holderVals d r x g) = 0 ∧ listMin (holderVals d r x g) = 0 ∧ listAll (holderVals d r x g) = 1) := by
+  refine ⟨fun h => ⟨listMax_spec _ h, listMin_spec _ h⟩, ?_, ?_⟩
+  · unfold listAll
+    by_cases h : (holderVals d r x g).all (fun a => decide (a ≠ 0)) = true
+    · rw [if_pos h]; simp only [true_iff]
+      intro y hy
+      have := List.all_eq_true.1 h y hy
+      simpa using this
+    · rw [if_neg h]
+      constructor
+      · intro h0; cases h0
+      · intro hall
+        exact absurd (List.all_eq_true.2 (fun y hy => by simpa using hall y hy)) h
+  · intro h; rw [h]; exact ⟨rfl, rfl, rfl⟩
+
+/-- A population whose LAST household has no member, after a household whose last-stored member is
+    decisive: three persons, households 0 = {person 0}, 1 = {persons 1, 2}, 2 = {} (person 2 holds
+    role 1).  max / min / all without role filter (codes 59 / 69 / 79) and with role 1 (51 / 61 / 71);
+    the part made of households 1 and 2 alone; the reordering that lists the empty household first. -/
+def c11E : Decl := ⟨3, 3, [0, 1, 1], 1, [], [], [0, 0, 1]⟩
+
+example : WF c11E ∧ Closed c11E [1, 2] [1, 2] ∧ IsPerm c11E [2, 0, 1] [2, 1, 0] ∧
+    RuleSys.f1 c11E 59 [5, 7, 30] = [5, 30, 0] ∧ RuleSys.f1 c11E 69 [5, 7, -3] = [5, -3, 0] ∧
+    RuleSys.f1 c11E 79 [5, 7, 0] = [1, 0, 1] ∧
+    RuleSys.f1 c11E 51 [5, 7, 30] = [0, 30, 0] ∧ RuleSys.f1 c11E 61 [5, 7, 30] = [0, 30, 0] ∧
+    RuleSys.f1 c11E 71 [5, 0, 30] = [1, 1, 1] ∧
+    RuleSys.f1 (restrict c11E [1, 2] [1, 2]) 59 (reindex [1, 2] [5, 7, 30]) = [30, 0] ∧
+    RuleSys.f1 (permute c11E [2, 0, 1] [2, 1, 0]) 59 (reindex [2, 0, 1] [5, 7, 30]) = [0, 30, 5] ∧
+    isRoleOp 59 = true ∧ isRoleOp 71 = true := by decide
 
 /-- What the unique-role operation means: in a group with exactly one holder `i` of role `r` it is
     that person's value, whatever the storage order; in a group without holder it is 0 (the
